@@ -1,8 +1,9 @@
 """C03 — RDY flow control, CLS and pause (engine E2)."""
 import e2
+from props import c03rdybytes
 
-TIE = ["Nsq.Tie.Chan", "Nsq.Tie.ChanFunc"]
-PROPS = ["Nsq.Props.C03", "Nsq.Props.C03Pump", "Nsq.Props.C03Pause", "Nsq.Props.C03Guard", "Nsq.Props.C03PumpBytes"]
+TIE = ["Nsq.Tie.Chan", "Nsq.Tie.ChanFunc"] + c03rdybytes.TIE
+PROPS = ["Nsq.Props.C03", "Nsq.Props.C03Pump", "Nsq.Props.C03Pause", "Nsq.Props.C03Guard", "Nsq.Props.C03PumpBytes"] + c03rdybytes.PROPS
 
 
 def run(ctx):
@@ -22,10 +23,15 @@ def run(ctx):
         "C03Pump (output buffer): 'flushed by the next flusher tick' needs a running ticker (output_buffer_timeout not "
         "disabled by the client); with it disabled a buffered message waits for the next forced flush / response / heartbeat "
         "(flushed_by_next_tick states both); the ticker's period itself is wall-clock (oracle pump-late-flush: T + 1.5 s)",
-        "rdy_range_full: max-rdy-count < 2^63 (an int64 option)",
+        "rdy_range_full: max-rdy-count < 2^63 (an int64 option); it is about the local helper countOfValue — the statement "
+        "over the bytes on the wire, on a model compared with the real RDY handler, is C03RdyBytes.rdy_range_bytes (audit A9)",
         "0 <= max-rdy-count",
     ]
+    for spec in c03rdybytes.SPECS:       # translated ByteToBase10 (Tie.Num) under C03RdyBytes.rdy_range_bytes
+        ctx.gen(spec)
     res, broken = e2.run_property(ctx, "C03", TIE, PROPS)
+    if not ctx.replay_in:
+        c03rdybytes.run(ctx, broken)     # audit A9: the real RDY handler on generated spellings of the count
     if (ctx.broken_ties or broken) and not ctx.violations:
         ctx.broken_without_input(ctx.broken_ties + broken,
                                  "search: %d generated op lines and the concurrent leg found no delivery beyond RDY, on a "
